@@ -11,6 +11,7 @@ import (
 	"sort"
 	"strconv"
 	"strings"
+	"sync/atomic"
 	"time"
 
 	"golang.org/x/tools/go/packages"
@@ -48,7 +49,33 @@ func usage() {
 	os.Exit(2)
 }
 
+// stallGuard ends the process as inconclusive (exit 2) when no solver round trip has
+// completed for 10 minutes and no native replay is running: a last line of defence against
+// a hang that would otherwise never return a verdict.
+var replayRunning int32
+
+func stallGuard() {
+	last, since := int64(-1), time.Now()
+	for {
+		time.Sleep(20 * time.Second)
+		cur := atomic.LoadInt64(&progressTick)
+		if cur != last || atomic.LoadInt32(&replayRunning) != 0 {
+			last, since = cur, time.Now()
+			continue
+		}
+		if time.Since(since) > 10*time.Minute {
+			buf := make([]byte, 1<<20)
+			n := runtime.Stack(buf, true)
+			os.WriteFile(filepath.Join(outRoot, "out", "stall-goroutines.txt"), buf[:n], 0o644)
+			fmt.Println("INCONCLUSIVE: the engine made no progress for 10 minutes (goroutine dump in out/stall-goroutines.txt)")
+			exec.Command("pkill", "-P", strconv.Itoa(os.Getpid())).Run()
+			os.Exit(2)
+		}
+	}
+}
+
 func main() {
+	go stallGuard()
 	if len(os.Args) < 2 {
 		usage()
 	}
